@@ -3,6 +3,7 @@ import itertools
 import hashlib
 import os.path
 import inspect
+import threading
 from importlib.machinery import SourceFileLoader
 
 
@@ -156,8 +157,10 @@ def unpack_impl(pkt, raw, offset, **k):
             try:
                 module = SourceFileLoader(module_name,
                                           module_pathname).load_module()
-            except ImportError:
-                pass
+            except Exception:
+                # a file that cannot be imported (truncated, corrupted,
+                # removed in the meantime...) is the same as no file
+                module = None
 
         # If no previously written module exists or its cooke does not match
         # ours, recreate the file and reload it
@@ -176,11 +179,19 @@ def unpack_impl(pkt, raw, offset, **k):
             # creates folder to host our generated code
             os.makedirs(folder, exist_ok=True)
 
-            with open(module_pathname, 'w') as module_file:
+            # write the code aside and then move it into place in one step:
+            # a reader (or a later run, if we die in the middle) never sees
+            # a half written module under the final name
+            tmp_pathname = "%s.%i.%i.tmp" % (
+                module_pathname, os.getpid(), threading.get_ident()
+            )
+            with open(tmp_pathname, 'w') as module_file:
                 module_file.write(import_code)
                 module_file.write(cookie_code)
                 module_file.write(pack_code)
                 module_file.write(unpack_code)
+
+            os.replace(tmp_pathname, module_pathname)
 
             # load it (again)
             module = SourceFileLoader(module_name,
